@@ -423,6 +423,11 @@ def run(ctx) -> None:
 
     check_state_only_grows(ctx, "C11.R3")
     check_step_outcome_single_source(ctx, "C11.R6")
+    # in a map with collected errors, the FAILED result (the node's exception and its partial values) sits in the slot of
+    # the item that failed: the bounded map pairs index and result after the item finished
+    from .c10 import check_async_map_order
+
+    check_async_map_order(ctx, "C11.R4")
     check_stop_iteration_kept(ctx, "C11.R1", reach)
 
     # ---- R4 ---------------------------------------------------------------
